@@ -310,72 +310,149 @@ theorem from_noise_model_fields (brightness g2 q ind r transmittance : ℚ) (g2d
 /-! ### the long-lived `Processor`: history-independence of `source_distribution` -/
 
 /-- Every step of the processor (in-place update of any `NoiseModel` object, assignment of any object —
-the one already held included —, new input, reading the distribution, direct use of the source, unrelated
-operations) preserves the invariant: the source is built from the current values of the held noise
-object unless that object was updated in place and not yet re-assigned, and a cached input distribution
-was generated by the current source for the current input. -/
+the one already held included —, new Fock input, CUSTOM input (an `SVDistribution` / `StateVector` / polarised
+state of the user, which is stored in the very slot that caches the generated mixture),
+`clear_input_and_circuit`, reading the distribution, direct use of the source, unrelated operations)
+preserves the invariant: the source is built from the current values of the held noise object unless that
+object was updated in place and not yet re-assigned; a cached generated distribution was generated by the
+current source for the current input, which is a Fock state; a cached custom object is the current input and
+a custom input is always cached. -/
 theorem proc_step_inv (s : Proc) (op : ProcOp) (h : s.Inv) : (procStep s op).1.Inv := by
-  obtain ⟨hs, hc⟩ := h
+  obtain ⟨hs, hc, hcc, hck⟩ := h
   cases op with
   | mutate id v =>
-    refine ⟨fun hd => ?_, hc⟩
+    refine ⟨fun hd => ?_, hc, hcc, hck⟩
     simp only [procStep, Bool.or_eq_false_iff, decide_eq_false_iff_not] at hd ⊢
     rw [if_neg (fun e => hd.2 e.symm)]
     exact hs hd.1
-  | assign id => exact ⟨fun _ => rfl, fun d hd => by simp [procStep] at hd⟩
+  | assign id =>
+    -- the cache survives exactly when the input is a custom one; then it holds that custom object
+    cases hin : s.input with
+    | none =>
+      refine ⟨fun _ => rfl, fun d hd => ?_, fun c hd => ?_, fun c hi => ?_⟩ <;>
+        simp [procStep, Proc.hasCustomInput, hin] at *
+    | some i =>
+      cases i with
+      | fock ns =>
+        refine ⟨fun _ => rfl, fun d hd => ?_, fun c hd => ?_, fun c hi => ?_⟩ <;>
+          simp [procStep, Proc.hasCustomInput, hin] at *
+      | custom c0 =>
+        have hk := hck c0 hin
+        refine ⟨fun _ => rfl, fun d hd => ?_, fun c hd => ?_, fun c hi => ?_⟩
+        · simp [procStep, Proc.hasCustomInput, hin, hk] at hd
+        · simp only [procStep, Proc.hasCustomInput, hin, hk, if_true, Option.some.injEq,
+            Cached.custom.injEq] at hd ⊢
+          rw [hd]
+        · simp only [procStep, Proc.hasCustomInput, hin, hk, if_true, Option.some.injEq,
+            Inp.custom.injEq] at hi ⊢
+          rw [hi]
   | input ns =>
-    refine ⟨hs, fun d hd => ⟨ns, s.tag, rfl, ?_⟩⟩
-    simp only [procStep, Proc.fill, Option.some.injEq] at hd
-    exact hd.symm
+    refine ⟨hs, fun d hd => ⟨ns, s.tag, rfl, ?_⟩, fun c hd => ?_, fun c hi => ?_⟩
+    · simp only [procStep, Proc.fill, Option.some.injEq, Cached.gen.injEq] at hd
+      exact hd.symm
+    · simp [procStep, Proc.fill] at hd
+    · simp [procStep, Proc.fill] at hi
+  | custom c0 =>
+    refine ⟨hs, fun d hd => ?_, fun c hd => ?_, fun c hi => ?_⟩
+    · simp [procStep] at hd
+    · simp only [procStep, Option.some.injEq, Cached.custom.injEq] at hd ⊢
+      rw [hd]
+    · simp only [procStep, Option.some.injEq, Inp.custom.injEq] at hi ⊢
+      rw [hi]
+  | clear =>
+    refine ⟨hs, fun d hd => ?_, fun c hd => ?_, fun c hi => ?_⟩ <;> simp [procStep] at *
   | read =>
     unfold procStep
     cases hca : s.cache with
-    | some d => exact ⟨hs, hc⟩
+    | some d => exact ⟨hs, hc, hcc, hck⟩
     | none =>
       cases hin : s.input with
-      | none => exact ⟨hs, hc⟩
-      | some ns =>
-        refine ⟨hs, fun d hd => ⟨ns, s.tag, hin, ?_⟩⟩
-        simp only [Proc.fill, Option.some.injEq] at hd
-        exact hd.symm
-  | useSource ns thr => exact ⟨hs, hc⟩
-  | other => exact ⟨hs, hc⟩
+      | none => exact ⟨hs, hc, hcc, hck⟩
+      | some i =>
+        cases i with
+        | custom c0 => exact ⟨hs, hc, hcc, hck⟩
+        | fock ns =>
+          refine ⟨hs, fun d hd => ⟨ns, s.tag, hin, ?_⟩, fun c hd => ?_, fun c hi => ?_⟩
+          · simp only [Proc.fill, Option.some.injEq, Cached.gen.injEq] at hd
+            exact hd.symm
+          · simp [Proc.fill] at hd
+          · simp [Proc.fill, hin] at hi
+  | useSource ns thr => exact ⟨hs, hc, hcc, hck⟩
+  | other => exact ⟨hs, hc, hcc, hck⟩
 
 /-- … hence the invariant holds after EVERY history of a processor constructed with any noise object. -/
 theorem proc_inv_all_histories (heap : ℕ → NoiseVal) (ref : ℕ) (ops : List ProcOp) :
     (procAfter heap ref ops).Inv :=
   SM.inv_exec procStep Proc.Inv proc_step_inv _
-    ⟨fun _ => rfl, fun d hd => by simp [Proc.init] at hd⟩ ops
+    ⟨fun _ => rfl, fun d hd => by simp [Proc.init] at hd, fun c hd => by simp [Proc.init] at hd,
+      fun c hi => by simp [Proc.init] at hi⟩ ops
 
 /-- History-independence: after ANY history (any interleaving of in-place updates, assignments of new,
-equal or the very same `NoiseModel` object, input changes, reads that fill the cache, direct uses of the
-source), provided the last in-place update of the held object has been followed by an assignment,
-`Processor.source_distribution` is the mixture `Source.generate_distribution` builds from
-`Source.from_noise_model` of the CURRENT values of the held noise object for the CURRENT input — for some
+equal or the very same `NoiseModel` object, Fock inputs, custom inputs, `clear_input_and_circuit`, reads that
+fill the cache, direct uses of the source), provided the last in-place update of the held object has been
+followed by an assignment, whenever the CURRENT input is a Fock state — whatever was the input before, a custom
+distribution included — `Processor.source_distribution` is the mixture `Source.generate_distribution` builds
+from `Source.from_noise_model` of the CURRENT values of the held noise object for the CURRENT input — for some
 value `t` of the tag counter, which only names the fresh tags (every theorem above holds for all `t`). -/
 theorem proc_source_distribution_current (heap : ℕ → NoiseVal) (ref : ℕ) (ops : List ProcOp)
     (hd : (procAfter heap ref ops).dirty = false) {ns : List ℕ}
-    (hin : (procAfter heap ref ops).input = some ns) :
+    (hin : (procAfter heap ref ops).input = some (.fock ns)) :
     ∃ t, (procAfter heap ref ops).sourceDistribution =
-      some (generate ((procAfter heap ref ops).heap (procAfter heap ref ops).ref).params 0 ns t) := by
-  obtain ⟨hs, hc⟩ := proc_inv_all_histories heap ref ops
+      some (.gen (generate ((procAfter heap ref ops).heap (procAfter heap ref ops).ref).params 0 ns t)) := by
+  obtain ⟨hs, hc, hcc, _⟩ := proc_inv_all_histories heap ref ops
   generalize procAfter heap ref ops = s at *
   unfold Proc.sourceDistribution procStep
   cases hca : s.cache with
-  | some d =>
-    obtain ⟨ns', t, h1, h2⟩ := hc d hca
-    rw [hin, Option.some.injEq] at h1
-    exact ⟨t, by simp only [h2, h1, hs hd]⟩
+  | some x =>
+    cases x with
+    | gen d =>
+      obtain ⟨ns', t, h1, h2⟩ := hc d hca
+      rw [hin, Option.some.injEq, Inp.fock.injEq] at h1
+      exact ⟨t, by simp only [h2, h1, hs hd]⟩
+    | custom c =>
+      have := hcc c hca
+      rw [hin] at this
+      cases this
   | none =>
     simp only [hin]
     exact ⟨s.tag, by rw [hs hd]⟩
+
+/-- A custom input bypasses the source: while it is the current input, `source_distribution` is the user's
+own object, after any history (noise assignments included). -/
+theorem proc_custom_input_returned (heap : ℕ → NoiseVal) (ref : ℕ) (ops : List ProcOp) {c : ℕ}
+    (hin : (procAfter heap ref ops).input = some (.custom c)) :
+    (procAfter heap ref ops).sourceDistribution = some (.custom c) := by
+  obtain ⟨_, _, _, hck⟩ := proc_inv_all_histories heap ref ops
+  generalize procAfter heap ref ops = s at *
+  unfold Proc.sourceDistribution procStep
+  rw [hck c hin]
+
+/-- Without an input (never given, or removed by `clear_input_and_circuit`) there is no distribution. -/
+theorem proc_no_input_no_distribution (heap : ℕ → NoiseVal) (ref : ℕ) (ops : List ProcOp)
+    (hin : (procAfter heap ref ops).input = none) :
+    (procAfter heap ref ops).sourceDistribution = none := by
+  obtain ⟨_, hc, hcc, _⟩ := proc_inv_all_histories heap ref ops
+  generalize procAfter heap ref ops = s at *
+  unfold Proc.sourceDistribution procStep
+  cases hca : s.cache with
+  | some x =>
+    cases x with
+    | gen d =>
+      obtain ⟨ns', t, h1, _⟩ := hc d hca
+      rw [hin] at h1
+      cases h1
+    | custom c =>
+      have := hcc c hca
+      rw [hin] at this
+      cases this
+  | none => simp only [hin]
 
 /-- The same for the source object itself: `processor.source` is `from_noise_model` of the current
 values of the held noise object, so any direct request to it follows the current parameters. -/
 theorem proc_source_current (heap : ℕ → NoiseVal) (ref : ℕ) (ops : List ProcOp)
     (hd : (procAfter heap ref ops).dirty = false) (ns : List ℕ) (thr : ℚ) :
     ∃ t, (procStep (procAfter heap ref ops) (.useSource ns thr)).2 =
-      some (generate ((procAfter heap ref ops).heap (procAfter heap ref ops).ref).params thr ns t) := by
+      some (.gen (generate ((procAfter heap ref ops).heap (procAfter heap ref ops).ref).params thr ns t)) := by
   obtain ⟨hs, _⟩ := proc_inv_all_histories heap ref ops
   exact ⟨(procAfter heap ref ops).tag, by simp only [procStep, hs hd]⟩
 
@@ -663,9 +740,20 @@ def exNoise (b : ℚ) : NoiseVal :=
   { brightness := b, g2 := 0, q := 1, ind := 1, r := 1, transmittance := 1, g2dist := true }
 def exHist : List ProcOp := [.input [1, 1], .read, .mutate 0 (exNoise (1 / 2)), .assign 0]
 example : (procAfter (fun _ => exNoise 1) 0 exHist).dirty = false ∧
-    (procAfter (fun _ => exNoise 1) 0 exHist).input = some [1, 1] ∧
+    (procAfter (fun _ => exNoise 1) 0 exHist).input = some (.fock [1, 1]) ∧
     ((procAfter (fun _ => exNoise 1) 0 exHist).heap 0).brightness = 1 / 2 := by
   simp [procAfter, exHist, SM.exec_cons, SM.exec_nil, procStep, Proc.fill, Proc.init, exNoise]
+-- ... also when a custom input was used in between and the SAME Fock state is given again (the custom object
+-- sat in the slot of the cached mixture)
+def exHistCustom : List ProcOp := [.input [1, 0], .custom 7, .assign 0, .input [1, 0]]
+example : (procAfter (fun _ => exNoise (1 / 2)) 0 exHistCustom).dirty = false ∧
+    (procAfter (fun _ => exNoise (1 / 2)) 0 exHistCustom).input = some (.fock [1, 0]) := by
+  simp [procAfter, exHistCustom, SM.exec_cons, SM.exec_nil, procStep, Proc.fill, Proc.init, Proc.hasCustomInput]
+-- hypothesis of `proc_custom_input_returned` / `proc_no_input_no_distribution`
+example : (procAfter (fun _ => exNoise 1) 0 [.input [1, 0], .custom 7, .assign 0]).input = some (.custom 7) := by
+  simp [procAfter, SM.exec_cons, SM.exec_nil, procStep, Proc.fill, Proc.init, Proc.hasCustomInput]
+example : (procAfter (fun _ => exNoise 1) 0 [.input [1, 0], .custom 7, .clear]).input = none := by
+  simp [procAfter, SM.exec_cons, SM.exec_nil, procStep, Proc.fill, Proc.init]
 -- the hypothesis `dirty = false` is needed: between the in-place update and the re-assignment the source
 -- of the code as it is still has the old values
 example : (procAfter (fun _ => exNoise 1) 0 [.mutate 0 (exNoise (1 / 2))]).src.beta = 1 ∧
